@@ -22,20 +22,24 @@ SIG_NAME = {'none': 'noargs', 'x': 'x', 'y': 'y', 'xy': 'x-y', 'xd': 'x-default'
 
 
 def build_module(recs):
+    """-> (source, [line of the first line of configuration i's text], [line after its last line])"""
     out = ['# lambda configurations enumerated by spec/LambdaSelect.tla\n']
-    offs = []
+    offs, ends = [], []
     line = 2
     for i, r in enumerate(recs):
-        nl = r['text'].count('\n')
+        text = r['text'].replace('TGT', 'X%d_' % i)
+        nl = text.count('\n')
+        names = ', '.join('X%d_%d' % (i, s) for s in range(1, r['nst'] + 1))
         if r['cx'] == 'mod':
-            out.append('X%d = %s\n' % (i, r['text']))
+            out.append(text + '\n')
             offs.append(line)
             line += nl + 1
         else:
-            out.append('def mk%d():\n    return %s\nX%d = mk%d()\n' % (i, r['text'], i, i))
+            out.append('def mk%d():\n    %s\n    return (%s, )\n%s, = mk%d()\n' % (i, text, names, names, i))
             offs.append(line + 1)
-            line += nl + 3
-    return ''.join(out), offs
+            line += nl + 4
+        ends.append(offs[-1] + nl)
+    return ''.join(out), offs, ends
 
 
 def _lambda_id(node):
@@ -50,13 +54,16 @@ def _lambda_id(node):
     return None
 
 
-def _objects(rec, top):
+def _objects(rec, tops):
     """lambda objects of a configuration by index (1-based), following the specification's parent vector"""
     n = rec['n']
     objs = {}
     kids = {k: [c for c in range(1, n + 1) if rec['par'][c - 1] == k] for k in range(0, n + 1)}
-    for pos, c in enumerate(kids[0]):
-        objs[c] = top[pos]
+    seen = {}
+    for c in kids[0]:                         # top-level lambda c is the next element of its statement's tuple
+        st = rec['stmt'][c - 1]
+        objs[c] = tops[st - 1][seen.get(st, 0)]
+        seen[st] = seen.get(st, 0) + 1
 
     def descend(k):
         if not kids[k]:
@@ -78,28 +85,24 @@ def _objects(rec, top):
 def run_batch(parser, errors, recs, scratch, stats):
     """-> list (per record) of list (per lambda, 0-based) of (outcome, detail) with outcome in
     'found:<j>' | 'unsupported' | 'error:<Type>' | 'altered'"""
-    src, offs = build_module(recs)
+    src, offs, ends = build_module(recs)
     try:
         mod, path = L.load_module(src, scratch, 'lam')
     except Exception as e:
         raise common.MachineryError('rendered lambda module does not import: %r' % (e,))
     try:
         tree = ast.parse(src)
-        stmt_at = {}
-        for st in ast.walk(tree):
-            if isinstance(st, (ast.Assign, ast.Return)):
-                stmt_at[st.lineno] = st
+        all_lambdas = [nd for nd in ast.walk(tree) if isinstance(nd, ast.Lambda)]
         results = []
-        for i, (rec, off) in enumerate(zip(recs, offs)):
-            st = stmt_at.get(off)
-            if st is None:
-                raise common.MachineryError('statement of configuration %d not found at line %d' % (i, off))
+        for i, (rec, off, end) in enumerate(zip(recs, offs, ends)):
             nodes = {}
-            for nd in ast.walk(st):
-                k = _lambda_id(nd)
-                if k is not None:
+            for nd in all_lambdas:               # configurations occupy disjoint line ranges
+                if off <= nd.lineno <= end:
+                    k = _lambda_id(nd)
+                    if k is None or k in nodes:
+                        raise common.MachineryError('unexpected lambda at line %d' % nd.lineno)
                     nodes[k] = nd
-            objs = _objects(rec, getattr(mod, 'X%d' % i))
+            objs = _objects(rec, [getattr(mod, 'X%d_%d' % (i, s)) for s in range(1, rec['nst'] + 1)])
             per = []
             for k in range(1, rec['n'] + 1):
                 nd, ob = nodes.get(k), objs[k]
@@ -171,7 +174,7 @@ SEVERITY = ['wrong-lambda', 'altered', 'error', 'unresolved']
 
 
 def key_of(rec):
-    return (rec['cx'], tuple(rec['par']), tuple(rec['brk']), tuple(rec['span']), tuple(rec['sig']))
+    return (rec['cx'], tuple(rec['par']), tuple(rec['brk']), tuple(rec['span']), tuple(rec['sig']), tuple(rec['sep']))
 
 
 def violation_class(sig):
@@ -181,35 +184,39 @@ def violation_class(sig):
 
 def reductions(key, i):
     """simpler configurations, each with the new index of the object under test (1-based)"""
-    cx, par, brk, span, sig = key
+    cx, par, brk, span, sig, sep = key
     n = len(par)
     if cx != 'mod':
-        yield ('mod', par, brk, span, sig), i
+        yield ('mod', par, brk, span, sig, sep), i
     for k in range(n - 1, -1, -1):                # drop another lambda; lambdas inside it move to its parent
         if n > 1 and k + 1 != i:
             newpar = tuple((par[k] if p == k + 1 else p - 1 if p > k + 1 else p) for q, p in enumerate(par) if q != k)
 
             def cut(t):
                 return tuple(x for q, x in enumerate(t) if q != k)
-            yield (cx, newpar, cut(brk), cut(span), cut(sig)), (i - 1 if k + 1 < i else i)
+            newsep = cut(sep)
+            newsep = ('comma',) + newsep[1:]      # the first lambda never opens a second statement
+            yield (cx, newpar, cut(brk), cut(span), cut(sig), newsep), (i - 1 if k + 1 < i else i)
     for k in range(n):
+        if sep[k] != 'comma':                    # join two statements into one tuple display
+            yield (cx, par, brk, span, sig, sep[:k] + ('comma',) + sep[k + 1:]), i
         if brk[k] != 'same':
-            yield (cx, par, brk[:k] + ('same',) + brk[k + 1:], span, sig), i
+            yield (cx, par, brk[:k] + ('same',) + brk[k + 1:], span, sig, sep), i
         if span[k] != 'one':
-            yield (cx, par, brk, span[:k] + ('one',) + span[k + 1:], sig), i
+            yield (cx, par, brk, span[:k] + ('one',) + span[k + 1:], sig, sep), i
         if par[k] != 0:                          # lift the last lambda, if nested and childless, to the top level
             if (k + 1) not in par and k == n - 1:
-                yield (cx, par[:k] + (0,), brk, span, sig), i
+                yield (cx, par[:k] + (0,), brk, span, sig, sep), i
         # a parameter list that shares its names with no other lambda may lose its parameters altogether
         # (never rename: a reduction must remove features, not create a new name clash)
         others = [NAMES[sig[j]] for j in range(n) if j != k]
         if sig[k] != 'none' and NAMES[sig[k]] not in others and NAMES['none'] not in others:
-            yield (cx, par, brk, span, sig[:k] + ('none',) + sig[k + 1:]), i
+            yield (cx, par, brk, span, sig[:k] + ('none',) + sig[k + 1:], sep), i
 
 
 def describe(key, rec):
     """feature description of a (minimal) configuration: parameter lists and how the lambdas relate"""
-    cx, par, brk, span, sig = key
+    cx, par, brk, span, sig, sep = key
     names = '-vs-'.join(sorted(SIG_NAME[s] for s in sig))
     n = len(par)
     rels = set()
@@ -222,6 +229,8 @@ def describe(key, rec):
     extra = []
     if cx != 'mod':
         extra.append('in-function')
+    if 'semi' in sep:
+        extra.append('separate-statements')
     if n == 1:
         rels.add('alone')
         if span[0] == 'two':
